@@ -313,15 +313,28 @@ Fixpoint all_handles (fuel k : nat) (s : st) : st :=
            end
   end.
 
-(* everything the free-running watchers do until nothing is enabled: waiting
-   watchers try to register (lowest number first: the harness starts at most one
-   waiting watcher), active ones run to completion; a held watcher takes the lock
-   and then sits in its NodeStatusStream call *)
-Definition settle_watcher (held : list nat) (armed : bool) (s : st) (k : nat) : st :=
-  let s1 := step s (ERegister k) in
-  if memn k held then s1 else settle_failing (settle_bound s1 k + 8) k s1 armed.
-Definition settle_all (held : list nat) (armed : bool) (s : st) : st :=
-  fold_left (settle_watcher held armed) (seq 0 (length (ws s))) s.
+(* what the watchers do until nothing is enabled: if the lock is free the
+   lowest-numbered waiting watcher takes it (the harness has at most one waiting);
+   the lock holder then runs to completion -- unless the harness holds it back in
+   its NodeStatusStream call, where it just sits with the lock *)
+Fixpoint first_waiting_from (l : list wphase) (i : nat) : option nat :=
+  match l with
+  | [] => None
+  | Waiting :: _ => Some i
+  | _ :: t => first_waiting_from t (S i)
+  end.
+Definition first_waiting (s : st) : option nat := first_waiting_from (ws s) 0.
+Definition take_lock (s : st) : st :=
+  match holder s, first_waiting s with
+  | None, Some k => step s (ERegister k)
+  | _, _ => s
+  end.
+Definition quiesce (held : list nat) (armed : bool) (s : st) : st :=
+  let s1 := take_lock s in
+  match holder s1 with
+  | Some k => if memn k held then s1 else settle_failing (settle_bound s1 k + 8) k s1 armed
+  | None => s1
+  end.
 
 Definition act_events (s : st) (a : action) : list event :=
   match a with
@@ -338,7 +351,7 @@ Definition act_events (s : st) (a : action) : list event :=
 Definition held_after (s : st) (held : list nat) (a : action) : list nat :=
   match a with
   | AStartHeld => length (ws s) :: held
-  | ARelease k => remn k held
+  | ARelease k | AStop k => remn k held
   | _ => held
   end.
 
@@ -361,9 +374,8 @@ Fixpoint agree_from (s : st) (held : list nat) (sls : list slot) : bool :=
   | sl :: t =>
       let held' := held_after s held (act sl) in
       let s1 := run s (act_events s (act sl)) in
-      (* twice: a watcher stopped in this slot frees the lock for one examined earlier *)
       let armed := match act sl with ALapseFail _ => true | _ => false end in
-      let s2 := settle_all held' false (settle_all held' armed s1) in
+      let s2 := quiesce held' armed s1 in
       obs_eqb (map w_st (wls s2)) (seen sl) && agree_from s2 held' t
   end.
 Definition agree (c : case) : bool := agree_from init [] (slots c).
@@ -385,6 +397,8 @@ Record okst := mkOk {
   o_good : bool
 }.
 Definition is_nil {A} (l : list A) : bool := match l with [] => true | _ => false end.
+Definition min_of (l : list nat) : option nat :=
+  match l with [] => None | x :: t => Some (fold_left Nat.min t x) end.
 Definition seen_down (wnode : list node) (seen : obs) (n : node) : bool :=
   forallb (fun p => negb (fst p =? n) || match snd p with Some (false, false) => true | _ => false end)
           (combine wnode seen).
@@ -413,7 +427,7 @@ Definition ok_step (o : okst) (sl : slot) : okst :=
   let remaining := free' ++ held' in
   let active' := match a, o_active o with
                  | (AStart | AStartHeld), None => Some (o_nw o)
-                 | (AStop k | AExpire k), Some k' => if k =? k' then hd_error remaining else Some k'
+                 | (AStop k | AExpire k), Some k' => if k =? k' then min_of remaining else Some k'
                  | _, x => x
                  end in
   (* does this step put a free-running watcher in charge? *)
